@@ -48,18 +48,19 @@ def file_case(fa, cid, raw, records, codec="null", interval=16000, level=None, m
             # the file is written by one writer() call and extended by a second one (append mode: the stream is positioned at its end);
             # the second call names another codec, the header's one governs
             case["append_at"] = append_at
+            sync2 = bytes(255 - b for b in sync) if sync else b""       # the header's marker governs, whatever the second call names
             if kind_out == "file":
                 path = os.path.join(tmpdir, cid + ".avro")
                 with open(path, "wb") as fo:
                     fa.writer(fo, schema, records[:append_at], **kw)
                 with open(path, "a+b") as fo:
-                    fa.writer(fo, schema, records[append_at:], codec=codec2, sync_interval=max(1, interval // 2))
+                    fa.writer(fo, schema, records[append_at:], codec=codec2, sync_interval=max(1, interval // 2), sync_marker=sync2)
                 with open(path, "rb") as f:
                     data = f.read()
             else:
                 fo = io.BytesIO()
                 fa.writer(fo, schema, records[:append_at], **kw)
-                fa.writer(fo, schema, records[append_at:], codec=codec2, sync_interval=max(1, interval // 2))
+                fa.writer(fo, schema, records[append_at:], codec=codec2, sync_interval=max(1, interval // 2), sync_marker=sync2)
                 data = fo.getvalue()
         elif kind_out == "file":
             path = os.path.join(tmpdir, cid + ".avro")
